@@ -49,6 +49,8 @@ func c11Ops() []histOp {
 		{"append-array-element", keep("Y", ap("Y", "X")), false},
 		{"remove-X-0", keep("X", rm("X", "0")), false}, {"remove-Y-from-X-1", keep("Y", rm("X", "1")), false},
 		{"remove-Z-from-Y-last", keep("Z", rm("Y", L("Y")+" - 1")), false}, {"remove-Z-from-X-last", keep("Z", rm("X", L("X")+" - 1")), false},
+		{"write-nil", "X[0] = nil;", false}, {"write-nil-variable", "T = nil; Y[0] = T; Z = [1, nil]; Z[0] = Z[1];", false}, {"write-result-of-nothing", "X[" + L("X") + " - 1] = setvia(Y, 0, %f);", false},
+		{"write-signed-zeros", "X[0] = 0; X[0] = -0; Y[0] = -0; Y[0] = 0;", false}, {"write-same-value-twice", "X[0] = %f; X[0] = X[0]; Y[0] = X[0];", false},
 		{"read-X0", Print("X[0]"), false}, {"read-Ylast", Print("Y[" + L("Y") + " - 1]"), false}, {"read-negzero", Print("X[-0]"), false},
 		// faulting steps
 		{"read-neg", Print("X[-1]"), true}, {"read-len", Print("X[" + L("X") + "]"), true}, {"read-frac", Print("X[1.5]"), true},
@@ -58,6 +60,7 @@ func c11Ops() []histOp {
 		{"read-2^31", Print("X[2147483648]"), true}, {"read-2^53", Print("X[9007199254740992]"), true}, {"read-1e18+1", Print("X[1000000000000000001]"), true}, {"read-2^64", Print("X[18446744073709551616]"), true},
 		{"write-2^32", "X[4294967296] = %f;", true}, {"write-2^32+1", "Y[4294967296 + 0] = %f;", true}, {"write-neg-2^32", "X[0 - 4294967296] = %f;", true}, {"write-2^64+1", "X[18446744073709551617] = %f;", true},
 		{"remove-2^32", "T = " + rm("X", "4294967296") + ";", true}, {"remove-2^32+1", "T = " + rm("X", "4294967297") + ";", true}, {"remove-neg-2^32", "T = " + rm("X", "0 - 4294967295") + ";", true},
+		{"write-nil-high", "X[" + L("X") + "] = nil;", true}, {"write-nil-neg", "X[-1] = nil;", true}, {"write-nil-frac", "X[1.5] = nil;", true}, {"write-nil-str", `X["x"] = nil;`, true}, {"write-nil-nonarray", "box[0] = nil;", true},
 		{"write-neg", "X[-1] = %f;", true}, {"write-len", "X[" + L("X") + "] = %f;", true}, {"write-frac", "Y[0.5] = %f;", true}, {"write-str", `Y["x0"] = %f;`, true},
 		{"remove-len", "T = " + rm("X", L("X")) + ";", true}, {"remove-neg", "T = " + rm("X", "-1") + ";", true}, {"remove-frac", "T = " + rm("X", "0.5") + ";", true},
 		{"remove-str", "T = " + rm("X", `"x"`) + ";", true}, {"remove-nonarray", "T = " + rm("5", "0") + ";", true},
@@ -232,7 +235,7 @@ func c11Run(c *Ctx) {
 	}
 	enumHistories(c, ops, 2, 1, emit("histories-len<=2"))
 	if c.Quick() {
-		enumHistories(c, ops, 3, 2, emit("histories-len<=3-every-2nd"))
+		enumHistories(c, ops, 3, 4, emit("histories-len<=3-every-4th"))
 	} else {
 		enumHistories(c, ops, 4, 1, emit("histories-len<=4"))
 	}
@@ -291,7 +294,7 @@ func c11Run(c *Ctx) {
 func init() {
 	register(&CheckDef{
 		ID:   "C11",
-		Rule: "histories over three array variables with shared ancestry (aliases, an enclosing array H, an object box, a parameter-writing function): 28 non-faulting step kinds (alias, fresh literal, indexed write direct / through a parameter / through a container, এড with 1-3 extra arguments into the same or another variable or via a function, রিমুভ at first / middle / last index, reads) and 33 faulting step kinds (index negative, = length, fractional, string, nil, boolean, 2^31, 2^32, 2^32+1, -(2^32-1), 2^53, 2^63, 2^64, +Inf on read, write and রিমুভ; non-array arguments); every history of <=2 steps, every 2nd of <=3 (quick) / every history of <=4 (thorough), each also ended by every faulting step; random histories of 4-34 steps. After every step the program prints every live array, its লেন, arithmetic/comparison on লেন, and an object holding every array ever returned by এড/রিমুভ; every written value is a unique integer. Compared with refborno's pure list model. Non-trivial = distinct decided history.",
+		Rule: "histories over three array variables with shared ancestry (aliases, an enclosing array H, an object box, a parameter-writing function): 28 non-faulting step kinds (alias, fresh literal, indexed write direct / through a parameter / through a container, এড with 1-3 extra arguments into the same or another variable or via a function, রিমুভ at first / middle / last index, reads) and 33 faulting step kinds (index negative, = length, fractional, string, nil, boolean, 2^31, 2^32, 2^32+1, -(2^32-1), 2^53, 2^63, 2^64, +Inf on read, write and রিমুভ; non-array arguments); every history of <=2 steps, every 4th of <=3 (quick) / every history of <=4 (thorough), each also ended by every faulting step; random histories of 4-34 steps. After every step the program prints every live array, its লেন, arithmetic/comparison on লেন, and an object holding every array ever returned by এড/রিমুভ; every written value is a unique integer. Compared with refborno's pure list model. Non-trivial = distinct decided history.",
 		Assumptions: []string{"numeric-looking string indexes are out of domain"},
 		Run:         c11Run,
 		Judge:       c11Judge,
